@@ -286,6 +286,24 @@ fn hrp_subs(out: &mut Out, a: &Address, label: &str, doubles: bool) {
             out.s("hrp_substitution_rejected", acc.is_none(), || format!("{} orig={} corrupted={} accepted: {}", label, s, t, acc.clone().unwrap_or_default()));
         }
     }
+    // whole-HRP replacement by the HRP of another network / kind (`lq`→`el` is a two-character corruption). The valid
+    // string is parsed immediately before each corrupted one, so that nothing the decoder might remember from a
+    // successful parse of the SAME data part can make the corrupted string pass.
+    for h in ["ex", "lq", "ert", "el", "tex", "tlq"] {
+        let own = &s[..sep];
+        if h == own {
+            continue;
+        }
+        let t = format!("{}{}", h, &s[sep..]);
+        let hamming = if h.len() == own.len() { h.bytes().zip(own.bytes()).filter(|(x, y)| x != y).count() } else { usize::MAX };
+        let _ = Address::from_str(&s);
+        let _ = Address::parse_with_params(&s, a.params);
+        let acc = accepted_anywhere(&t);
+        n += 1;
+        out.count(&format!("subst.hrp.network_swap.{}", if hamming <= 2 { "within_two_chars" } else { "longer" }));
+        // any such string would have to carry a valid checksum under the other hrp: a coincidence of >= 30 bits
+        out.s("hrp_substitution_rejected", acc.is_none(), || format!("{} orig={} hrp replaced by {:?} (valid string parsed just before)={} accepted: {}", label, s, h, t, acc.clone().unwrap_or_default()));
+    }
     if doubles {
         for i in 0..sep {
             for j in i + 1..sep {
